@@ -129,6 +129,11 @@ pub fn check(c: &Case) -> Outcome {
             }
         }
         for (i, f) in flist.iter().enumerate() {
+            // on a Context::default() base the built-ins are already defined: half of the cases leave them in place
+            // instead of replacing them by stubs
+            if c.base_default && c.value_kind % 2 == 0 && crate::model::eval::BUILTINS.contains(&f.as_str()) {
+                continue;
+            }
             if all || c.fn_mask & (1 << (i % 64)) != 0 {
                 stub(&mut ctx, f);
             }
